@@ -379,7 +379,9 @@ def r13_2(ctx, rr):
             tail = b.body.get("expr")
             t = W.T.term(tail) if tail is not None else ("unk", "no-tail")
             uses_rmw = mentions(t, lambda x: x[0] == "call" and (x[1].endswith("fetch_or") or x[1].endswith("fetch_and"))) or mentions(t, lambda x: x[0] == "unk" and x[1].startswith("If@"))
-            shape = t[0] == "op" and t[1] == "!=" and mentions(t, lambda x: x[0] == "op" and x[1] == ">>" and x[3] == mk_op("%", idx, ("def", "bits::bit_vec::BITS")))
+            bitpos = mk_op("%", idx, ("def", "bits::bit_vec::BITS"))
+            # the bit tested either way: `(w >> k) & 1 != 0` or `w & (1 << k) != 0`
+            shape = t[0] == "op" and t[1] == "!=" and (mentions(t, lambda x: x[0] == "op" and x[1] == ">>" and x[3] == bitpos) or mentions(t, lambda x: x[0] == "op" and x[1] == "<<" and x[2] == ("int", 1) and x[3] == bitpos))
             rr.instances += 1
             rr.check(bool(uses_rmw and shape), "AtomicBitVec::swap_unchecked:returns-old-bit", "%s must return bit index%%BITS of the word returned by the RMW itself; found `%s`" % (b.key, tshow(t)[:200]), b.span)
 
